@@ -393,6 +393,11 @@ func (r *c12InputRoot) Resolve(field *ggql.Field, args map[string]interface{}) (
 	}
 	show := func(v interface{}) string {
 		switch t := v.(type) {
+		case *c12PlainGo:
+			if t == nil {
+				return "nil"
+			}
+			return fmt.Sprintf("PlainGo{tags:%v range:%v}", t.Tags, t.Range != nil)
 		case *c12Filter:
 			if t == nil {
 				return "nil"
@@ -450,6 +455,27 @@ var c12InputRequests = []string{
 	`{both(p: {})}`, `{both(f: {}, p: {tags: []})}`, `query($f: Filter = {}) {find(f: $f)}`, `query($p: Plain = {range: {hi: 1}}) {plain(p: $p)}`,
 	`{__type(name: "Filter") {inputFields {name defaultValue}}}`, `{__type(name: "Plain") {inputFields {name defaultValue}}}`,
 	`{__type(name: "Query") {fields {name args {name defaultValue}}}}`, `{a: find(f: {}) b: find(f: {name: "x"}) c: plain}`,
+	// variables whose values are Go structs (see c12InputVars): of the type the input is bound to, and
+	// for the input no Go type was ever registered for
+	`query($f: Filter) {find(f: $f)}`, `query($p: Plain) {plain(p: $p)}`, `query($p: Plain, $f: Filter) {both(f: $f, p: $p)}`,
+}
+
+type c12PlainGo struct {
+	Tags  []string
+	Range *c12Range
+}
+
+// c12InputVars gives the variables of the requests that take Go values (made anew for every call).
+func c12InputVars(text string) map[string]interface{} {
+	switch text {
+	case `query($f: Filter) {find(f: $f)}`:
+		return map[string]interface{}{"f": &c12Filter{N: 4, Name: "go"}}
+	case `query($p: Plain) {plain(p: $p)}`:
+		return map[string]interface{}{"p": &c12PlainGo{Tags: []string{"g"}}}
+	case `query($p: Plain, $f: Filter) {both(f: $f, p: $p)}`:
+		return map[string]interface{}{"p": &c12PlainGo{Range: &c12Range{Lo: 2}}, "f": &c12Filter{Tags: []string{"t"}}}
+	}
+	return nil
 }
 
 func newC12InputRoot() (*ggql.Root, error) {
@@ -476,7 +502,7 @@ func c12InputRound(reqs []string, n int) (problems []string) {
 		if err != nil {
 			return []string{"setup: " + err.Error()}
 		}
-		want[i] = hx.Show(hx.Norm(root.ResolveString(rq, "", nil)))
+		want[i] = hx.Show(hx.Norm(root.ResolveString(rq, "", c12InputVars(rq))))
 	}
 	root, err := newC12InputRoot()
 	if err != nil {
@@ -493,7 +519,7 @@ func c12InputRound(reqs []string, n int) (problems []string) {
 			<-start
 			for k := range reqs {
 				i := (k + g) % len(reqs)
-				got[g][i] = hx.Show(hx.Norm(root.ResolveString(reqs[i], "", nil)))
+				got[g][i] = hx.Show(hx.Norm(root.ResolveString(reqs[i], "", c12InputVars(reqs[i]))))
 			}
 		}(g)
 	}
@@ -570,7 +596,7 @@ func c12NestRound(depths []int, n int, problems *[]string, done chan struct{}) {
 			<-start
 			for k := range reqs {
 				i := (k + g) % len(reqs)
-				got[g][i] = hx.Show(hx.Norm(root.ResolveString(reqs[i], "", nil)))
+				got[g][i] = hx.Show(hx.Norm(root.ResolveString(reqs[i], "", c12InputVars(reqs[i]))))
 			}
 		}(g)
 	}
